@@ -458,7 +458,7 @@ func (p *prover) lenBounds(X ssa.Value, b *ssa.BasicBlock) (int64, int64) {
 	}
 	// regexp knowledge
 	if call, ok := root.(*ssa.Call); ok {
-		if f := call.Call.StaticCallee(); f != nil && origin(f).String() == "(*regexp.Regexp).FindSubmatch" && lo >= 1 {
+		if f := call.Call.StaticCallee(); f != nil && isFindSubmatch(origin(f).String()) && lo >= 1 {
 			if re := p.c.regexpOf(call.Call.Args[0]); re != nil {
 				n := int64(re.MaxCap() + 1)
 				return n, n
@@ -486,7 +486,7 @@ func (p *prover) matchedMinLen(root ssa.Value, b *ssa.BasicBlock) int64 {
 				continue
 			}
 			f := call.Call.StaticCallee()
-			if f == nil || origin(f).String() != "(*regexp.Regexp).FindSubmatch" || lenRoot(call.Call.Args[1]) != root {
+			if f == nil || !isFindSubmatch(origin(f).String()) || lenRoot(call.Call.Args[1]) != root {
 				continue
 			}
 			// need fact len(call)==0 false at b
@@ -1120,3 +1120,8 @@ func (c *Ctx) preconditions(fns map[*ssa.Function]bool) map[*ssa.Function]*preco
 }
 
 var _ = strings.HasPrefix
+
+// isFindSubmatch: the two sibling forms (bytes / string subject) with the same length contract.
+func isFindSubmatch(name string) bool {
+	return name == "(*regexp.Regexp).FindSubmatch" || name == "(*regexp.Regexp).FindStringSubmatch"
+}
